@@ -113,25 +113,6 @@ def cs(s):
     return "(bs [%s])" % ";".join(str(x) for x in b)
 
 
-def ccell(t):
-    s, d, i, b, ws = t
-    if s == "" and not d and i is None and b is None and ws == []:
-        return "E"
-    if i is None and b is None and ws == [None]:
-        return "(%s %s)" % ("D" if d else "W", cs(s))
-    if not d and i is not None and b is None and ws == [i]:
-        return "(K %s %s)" % (cs(s), cz(i))
-    return "(C %s %s %s %s %s)" % (cs(s), cbool(d), copt(i), copt(b, cbool), clist(ws, copt))
-
-
-def crow_list(rows):
-    return "[%s]" % ";\n ".join("[" + "; ".join(ccell(tokenise(c)) for c in row) + "]" for row in rows)
-
-
-def crows(rows):
-    return "None" if rows is None else "(Some %s)" % crow_list(rows)
-
-
 def cvalue(v):
     return "(VB %s)" % cbool(v) if isinstance(v, bool) else "(VZ %s)" % cz(v)
 
@@ -140,10 +121,83 @@ def cmatrix(m):
     return "[" + "; ".join("(%s, [%s])" % (cz(l), "; ".join("(%s, %s)" % (ORIENTS[o], cz(v)) for o, v in es)) for l, es in m) + "]"
 
 
-def cconfig(c):
-    return "(mkConfig %s %s %s %s %s %s)" % (
-        cs(c["name"]), " ".join(cz(c[f]) for f, _ in BASIC_FIELDS[:-1]), cbool(c["lossless"]),
-        clist(c["vp"], cvalue), copt(c["picture_bytes"]), copt(c["qm"], cmatrix))
+class Interner(object):
+    """Per-shard table of shared literals: string literals are the expensive part of elaborating a case
+    file (Coq interprets each one by reduction), so every distinct string / cell / row is defined once."""
+
+    def __init__(self):
+        self.defs = []
+        self.map = {}
+
+    def _get(self, kind, key, ty, lit):
+        k = (kind, key)
+        if k not in self.map:
+            name = "%s%d" % (kind, len(self.map))
+            self.defs.append("Definition %s : %s := %s." % (name, ty, lit()))
+            self.map[k] = name
+        return self.map[k]
+
+    def s(self, text):
+        return self._get("s", enc_bytes(text), "string", lambda: cs(text))
+
+    def cell(self, t):
+        s, d, i, b, ws = t
+        if s == "" and not d and i is None and b is None and ws == []:
+            return "E"
+
+        def lit():
+            if i is None and b is None and ws == [None]:
+                return "%s %s" % ("D" if d else "W", self.s(s))
+            if not d and i is not None and b is None and ws == [i]:
+                return "K %s %s" % (self.s(s), cz(i))
+            return "C %s %s %s %s %s" % (self.s(s), cbool(d), copt(i), copt(b, cbool), clist(ws, copt))
+        return self._get("c", repr(t), "cell", lit)
+
+    def row(self, row):
+        cells = tuple(self.cell(tokenise(c)) for c in row)
+        return self._get("r", cells, "list cell", lambda: "[%s]" % "; ".join(cells))
+
+    def rows(self, rows):
+        return "[%s]" % "; ".join(self.row(r) for r in rows)
+
+    def config(self, c):
+        return "(mkConfig %s %s %s %s %s %s)" % (
+            self.s(c["name"]), " ".join(cz(c[f]) for f, _ in BASIC_FIELDS[:-1]), cbool(c["lossless"]),
+            clist(c["vp"], cvalue), copt(c["picture_bytes"]), copt(c["qm"], cmatrix))
+
+    def obs(self, o):
+        if o[0] == "ok":
+            return "(OOk [%s])" % "; ".join(self.config(x) for x in o[1])
+        if o[0] == "invalid":
+            return "(OInvalid %s %s %s)" % (o[1], self.s(o[2]), self.s(o[3]))
+        return "OInvalidUnknown"
+
+    def text(self):
+        return "\n".join(self.defs) + "\n"
+
+
+def sharded_check(ctx, name, check, ty, items, build, shard, base_defs):
+    """ctx.coq_check_cases on shards that each carry their own interned definitions, in parallel.
+    Returns the sorted indices (into items) where the check is false, None if a shard failed."""
+    import concurrent.futures
+    from vlib import NPROC
+    jobs = []
+    for k in range(0, len(items), shard):
+        interner = Interner()
+        lits = [build(interner, it) for it in items[k:k + shard]]
+        jobs.append((k, "%s%02d" % (name, k // shard), base_defs + interner.text(), lits))
+    before = (ctx.corr_cases, ctx.corr_mismatches)
+    bad, failed = [], False
+    with concurrent.futures.ThreadPoolExecutor(max_workers=NPROC) as ex:
+        futs = {ex.submit(ctx.coq_check_cases, j[1], IMPORTS, check, j[3], ty, len(j[3]), 900, j[2]): j for j in jobs}
+        for fut in concurrent.futures.as_completed(futs):
+            r = fut.result()
+            if r is None:
+                failed = True
+            else:
+                bad.extend(futs[fut][0] + i for i in r)
+    ctx.corr_cases, ctx.corr_mismatches = before[0] + len(items), before[1] + len(bad)
+    return None if failed else sorted(bad)
 
 
 def dump_tables(tables, set_source_defaults):
@@ -638,7 +692,7 @@ def generate(ctx, bases, enums):
 
 # ------------------------------------------------------------------ the check
 def evaluate(ctx, tables, cf, enums, tag, text, mode):
-    """Run the implementation, apply the oracle; returns (rows, obs literal or None, outcome bucket)."""
+    """Run the implementation, apply the oracle; returns (rows, observation or None, outcome bucket)."""
     rows = csv_rows(text, mode)
     real = run_real(cf, text, mode)
     inp = {"text": text, "mode": mode}
@@ -649,8 +703,8 @@ def evaluate(ctx, tables, cf, enums, tag, text, mode):
     if real[0] == "invalid":
         k = classify(real[1], rows is None)
         if k is None:
-            return rows, "OInvalidUnknown", "invalid:unclassified"
-        return rows, "(OInvalid %s %s %s)" % (k[0], cs(k[1]), cs(k[2])), "invalid:" + k[0]
+            return rows, ("unknown",), "invalid:unclassified"
+        return rows, ("invalid", k[0], k[1], k[2]), "invalid:" + k[0]
     res = real[1]
     problems = []
     try:
@@ -671,7 +725,7 @@ def evaluate(ctx, tables, cf, enums, tag, text, mode):
         if not problems:
             ctx.violation("in-domain:type", inp, "returned configuration holds values of unexpected types [%s]" % tag)
         return rows, None, "ok:unprintable"
-    return rows, "(OOk [%s])" % "; ".join(cconfig(x) for x in c), "ok:%d" % min(len(c), 3)
+    return rows, ("ok", c), "ok:%d" % min(len(c), 3)
 
 
 def run(ctx):
@@ -731,14 +785,13 @@ def run(ctx):
         if len(ctx.samples) < 4 and tag.startswith(("cell", "generated")) and len(text) < 1500:
             ctx.sample({"tag": tag, "mode": mode, "text": text, "outcome": bucket})
         if obs is not None:
-            coq_cases.append("(%s,\n %s)" % (crows(rows), obs))
+            coq_cases.append((rows, obs))
             meta.append((tag, text, mode, bucket))
         # read_dict_list_csv alone (it is not observable through the reader once a column is rejected)
         if rows is not None and (tag.startswith(("struct", "random", "base")) or len(dl_cases) < 150):
             try:
                 cols = cf.read_dict_list_csv(feed(text, mode))
-                lit = "[%s]" % "; ".join("[%s]" % "; ".join("(%s, %s)" % (cs(k), cs(v)) for k, v in c.items()) for c in cols)
-                dl_cases.append("(%s, %s)" % (crow_list(rows), lit))
+                dl_cases.append((rows, [list(c.items()) for c in cols]))
                 dl_meta.append((tag, text, mode))
             except Exception:
                 pass  # reported by evaluate() already
@@ -752,13 +805,19 @@ def run(ctx):
             json.dump({"tag": m[0], "text": m[1], "mode": m[2]}, f)
         return path
 
-    bad = ctx.coq_check_cases("reader", IMPORTS, "check T", coq_cases, shard=ctx.pick(70, 100), defs=defs, timeout=900)
+    bad = sharded_check(
+        ctx, "reader", "check T", "option (list (list cell)) * obs", coq_cases,
+        lambda I, c: "(%s, %s)" % ("None" if c[0] is None else "Some %s" % I.rows(c[0]), I.obs(c[1])),
+        ctx.pick(250, 300), defs)
     for i in (bad or [])[:10]:
         # the implementation's outcome at this input already passed the property oracle above
         # (a result in domain or InvalidCodecFeaturesError), so this is a model/code difference only
         ctx.obligation("corr:read_codec_features_csv agrees with read_model [%s]" % meta[i][0], False, "corr-shard",
                        "implementation outcome %s; input saved in %s; text=%r" % (meta[i][3], save("reader", i, meta[i]), meta[i][1][:600]))
-    bad2 = ctx.coq_check_cases("dictlist", IMPORTS, "check_dict_list", dl_cases, shard=ctx.pick(70, 100), defs=defs, timeout=900)
+    bad2 = sharded_check(
+        ctx, "dictlist", "check_dict_list", "list (list cell) * list (list (string * string))", dl_cases,
+        lambda I, c: "(%s, [%s])" % (I.rows(c[0]), "; ".join("[%s]" % "; ".join("(%s, %s)" % (I.s(k), I.s(v)) for k, v in col) for col in c[1])),
+        ctx.pick(250, 300), "Open Scope string_scope.\n")
     for i in (bad2 or [])[:10]:
         ctx.obligation("corr:read_dict_list_csv agrees with read_dict_list [%s]" % dl_meta[i][0], False, "corr-shard",
                        "input saved in %s; text=%r" % (save("dictlist", i, dl_meta[i]), dl_meta[i][1][:600]))
